@@ -136,6 +136,10 @@ TABLE.update({
     "c11_octal_parsed_as_decimal.diff": ("box", "contracts.c11:parse_number:parse_number_arg_sets", None),
     "c11_constant_value_dropped.diff": ("contracts.c11", "_configure_constant", "scalar"),
     "c11_bundle_constant_slots_collide.diff": ("contracts.c11", "_configure_constant", "bundle constant of 2"),
+    "c02_merge_membership_by_node_id.diff": ("box", "contracts.c07b:place_wire_merge:wire_merge_arg_sets", None),
+    "c06_cleanup_keeps_stale_edges.diff": ("box", "contracts.c07b:cleanup_entities:cleanup_entities_arg_sets", None),
+    "c01_sink_to_unmaterialised_constant.diff": ("contracts.c07b", "_add_signal_sink", None),
+    "c06_entity_output_sourced_by_node.diff": ("contracts.c07b", "_place_entity_output", None),
     "c04_self_feedback_on_green.diff": ("box", "contracts.c04:self_feedback:self_feedback_arg_sets", None),
     "c04_cleanup_keeps_wires_of_removed_gate.diff": ("box", "contracts.c04:cleanup_gates:cleanup_arg_sets", None),
     "../seeded/C04-1/patch.diff": ("box", "contracts.c04:optimize_feedback:feedback_arg_sets", None),
